@@ -63,6 +63,8 @@ class Model:
                 b = base if base is not None else (-1) ** (i + k) * (3.0 + 11.0 * ((i + k) % 3))
                 self.xyz[i, k] = round(b + (1 if b >= 0 else -1) * (3 * i + k) * step, digits)
         self.title = f"model {natom} atoms tag{rng.randint(100, 999)}"
+        if rng.random() < 0.3:       # free text: runs of blanks inside a title are part of it
+            self.title = f"model {natom}  atoms   tag{rng.randint(100, 999)}"
         self.charges = [round((-1) ** i * (0.1 + 0.0013 * (i % 700)), 4) for i in range(natom)]
         self.masses = [round(1.008 + 1.731 * (i % 200), 5) for i in range(natom)]
         types = [1, 2, 3, 4]
@@ -162,6 +164,11 @@ def w_gro(m, lay, rng, variant):
 def w_crd(m, lay, rng, variant):
     lines = [f"* {m.title}", "* second title line", "*", f"{m.natom:5d}"]
     names, resn, resq, seg, rid = [], [], [], [], []
+    # the weighting array is free-form: now and then a value that fills all ten columns of its field
+    weights = [round(1234.56789 + 0.731 * (i % 9000), 5) if i % 7 == 3 else (round(-100.5 - 0.37 * (i % 2000), 5) if i % 11 == 5 else w)
+               for i, w in enumerate(m.masses)]
+    if getattr(m, "weights_are_masses", False):      # the cross-format comparison of C04 writes the masses of the model
+        weights = list(m.masses)
     for i, (s, r) in enumerate(zip(m.sym, m.xyz)):
         names.append((s.upper() + str(i % 100))[:4] if i % 4 else ("CG2R", "OT12", "H123")[i % 3])     # also names filling the column
         resn.append(["ALA", "GLY", "TIP3"][i % 3])
@@ -169,8 +176,8 @@ def w_crd(m, lay, rng, variant):
         seg.append(["PROT", "SOLV"][i % 2])
         rid.append(997 + (i // 3) % 9000)                                                             # three and four digits
         lines.append(render_record(lay["crd_atom"], {"atomno": (i + 1) % 100000, "resno": resq[-1], "resname": resn[-1], "type": names[-1],
-                                                      "x": r[0], "y": r[1], "z": r[2], "segid": seg[-1], "resid": rid[-1], "weight": m.masses[i]}))
-    exp = {"atcoords": m.xyz, "atmasses": m.masses, "atffparams.attypes": names, "atffparams.resnames": resn, "atffparams.resnums": resq,
+                                                      "x": r[0], "y": r[1], "z": r[2], "segid": seg[-1], "resid": rid[-1], "weight": weights[i]}))
+    exp = {"atcoords": m.xyz, "atmasses": weights, "atffparams.attypes": names, "atffparams.resnames": resn, "atffparams.resnums": resq,
            "extra.segid": seg, "extra.resid": rid}
     return "m.crd", "\n".join(lines) + "\n", exp
 
@@ -425,7 +432,7 @@ def w_orcalog(m, lay, rng, variant):
         lines += [f"  {sy:<2s}  {a[0]:12.6f}{a[1]:12.6f}{a[2]:12.6f}" for sy, a in zip(m.sym, ang)]
         lines += ["", "----------------------------", "CARTESIAN COORDINATES (A.U.)", "----------------------------",
                   "  NO LB      ZA    FRAG     MASS         X           Y           Z"]
-        lines += [f"{i:4d} {sy:<2s}  {float(z):8.4f}    0  {ms:8.3f} {r[0]:11.6f} {r[1]:11.6f} {r[2]:11.6f}" for i, (sy, z, ms, r) in enumerate(zip(m.sym, m.z, masses, xyz))]
+        lines += [f"{i:4d} {sy:<2s}  {float(z):8.4f}    0  {ms:8.3f}{r[0]:12.6f}{r[1]:12.6f}{r[2]:12.6f}" for i, (sy, z, ms, r) in enumerate(zip(m.sym, m.z, masses, xyz))]
         lines += ["", "--------------", "SCF ITERATIONS", "--------------",
                   "ITER       Energy         Delta-E        Max-DP      RMS-DP      [F,P]     Damp",
                   "               ***  Starting incremental Fock matrix formation  ***"]
@@ -664,7 +671,8 @@ def w_cp2klog(m, lay, rng, variant):
     pot, style = variant.split("_")[:2]
     unres = variant.endswith("_u")
     z = [8, 13, 14, 21, 26, 30, 47, 64, 6, 1][rng.randrange(10)]
-    lmax = rng.choice([1, 2, 2, 3, 3])
+    shape = getattr(m, "atom_shape", None)     # (functions per l, l of every record) enumerated by TLC from MC_AtomOrbitals
+    lmax = rng.choice([1, 2, 2, 3, 3]) if shape is None else len(shape[0]) - 1
     core = 0 if pot == "ae" else rng.choice([2, 10, 18] if z > 20 else [2])
     if core >= z:
         core = 0
@@ -675,11 +683,12 @@ def w_cp2klog(m, lay, rng, variant):
         """-> list over l of (exponents, coefficient matrix nprim x nfun) for the contracted style, (exponents, None) otherwise"""
         out = []
         for l in range(lmax + 1):
-            nprim = rng.randint(1, 4)
+            forced = shape[0][l] if (shape is not None and salt == 0) else None
+            nprim = rng.randint(1, 4) if (forced is None or kind == "con") else forced
             expo = sorted({round(0.11 * (salt + 1) + 3.7 ** k * (0.23 + 0.01 * l) + 0.001 * rng.randint(0, 99), 6 if kind == "con" else 8)
                            for k in range(nprim)}, reverse=(kind == "con"))
             if kind == "con":
-                nfun = rng.randint(1, 3)
+                nfun = rng.randint(1, 3) if forced is None else forced
                 cm = [[round((-1) ** (i + j) * (0.2 + 0.37 * i + 0.0113 * j + 0.001 * rng.randint(0, 99)), 6) for j in range(nfun)] for i in range(len(expo))]
                 out.append((expo, cm))
             else:
@@ -730,6 +739,8 @@ def w_cp2klog(m, lay, rng, variant):
     nstate = [min(nfun[l], rng.choice([[1, 2, 3], [0, 1, 2, 2], [0, 0, 1, 1], [0, 0, 1]][l])) for l in range(lmax + 1)]
     if sum(nstate) == 0:
         nstate[0] = 1
+    if shape is not None:
+        nstate = [list(shape[1]).count(l) for l in range(lmax + 1)]
     recs = [(l, s + 1) for l in range(lmax + 1) for s in range(nstate[l])]
     spins = ["alpha", "beta"] if unres else [""]
     occ, ener, coef = {}, {}, {}
@@ -931,7 +942,9 @@ DIGITS = {"xyz": 8, "extxyz": 8, "sdf": 4, "pdb": 3, "gromacs": 3, "charmm": 5, 
           "fcidump": 3, "gaussianinput": 8, "json_qcschema": 8, "fchk": 8, "gaussianlog": 6, "orcalog": 6, "gamess": 10, "qchemlog": 10, "wfx": 10, "mwfn": 8, "cp2klog": 6}
 MAGS = {"sdf": ["small", "neg", "negwide", "negwider", "wide", "mixed"], "pdb": ["small", "neg", "negwide", "wide", "mixed"],
         "gromacs": ["small", "neg", "neghundred", "hundred", "mixed"], "charmm": ["small", "neg", "negwide", "negwider", "mixed"],
-        "mol2": ["small", "negwide", "negwider", "mixed"], "cube": ["small", "neg", "negwide", "mixed"]}
+        "mol2": ["small", "negwide", "negwider", "mixed"], "cube": ["small", "neg", "negwide", "mixed"],
+        "orcalog": ["small", "neg", "negwide", "wide", "mixed"], "gaussianinput": ["small", "neg", "negwide", "wide", "mixed"],
+        "qchemlog": ["small", "neg", "negwide", "mixed"], "gamess": ["small", "neg", "negwide", "mixed"], "wfx": ["small", "neg", "negwide", "wide", "mixed"]}
 SIZES = {"xyz": [1, 3, 10, 100, 1200], "extxyz": [1, 3, 10, 120], "sdf": [1, 2, 9, 10, 99, 100, 101, 120, 500, 999],
          "pdb": [1, 2, 10, 99, 100, 1000, 9999, 10001, 12000], "gromacs": [1, 3, 10, 100, 1000, 10001], "charmm": [1, 3, 10, 100, 1000],
          "mol2": [1, 2, 10, 100, 1000], "poscar": [1, 2, 5, 8, 30], "chgcar": [1, 2, 5, 8], "locpot": [1, 2, 5], "cube": [1, 2, 3, 7],
